@@ -20,6 +20,8 @@ Obligations (DESIGN section 5, C09)
   C09.entry.*                Template.render / generate, NativeTemplate.render, BlockReference.__call__, Macro._invoke: in async mode they
                              delegate to the async twin with unchanged arguments (asyncio.run(render_async(...)), list of generate_async, ...), and
                              the async twin's body equals the sync body up to erase and four listed rewrites
+  C09.loopcontext.*          sync / async LoopContext parity: the contracts of contracts.c07 on __next__/__anext__, _peek_next, last, nextitem, length,
+                             revindex, revindex0 of LoopContext and AsyncLoopContext (both against the same abstract loop) and on auto_aiter
   C09.bounded.render         bounded stand-in for the end-to-end statement: a template family rendered sync vs async through render,
                              render_async, generate, generate_async, with values replaced by coroutine functions / async iterables
 
@@ -602,7 +604,19 @@ TEMPLATES = {
     "callable_data": "{{ f(2) }}{{ g() }}{% for i in gen() %}{{ i }}{% endfor %}{{ g()|string|upper }}",
     "awaitable_attr": "{{ o.meth() }}{{ o.attr }}{% if f(0) %}T{% else %}F{% endif %}{{ f(1) if f(0) else f(2) }}",
     "sum_start": "{{ rows|sum(start=acc) }}{{ acc }}",
+    # loops over UNSIZED iterables whose body looks ahead (loop.last / loop.nextitem) BEFORE asking for the length: the length has to be
+    # computed by exhausting the iterator and must count the item already peeked
+    "loop_unsized_last_then_length": "{% for i in ugen %}{{ i }}:{{ loop.last }}:{{ loop.length }}/{{ loop.revindex }}/{{ loop.revindex0 }};{% endfor %}",
+    "loop_unsized_nextitem_then_length": "{% for i in uiter %}{{ i }}:{{ loop.nextitem }}:{{ loop.revindex }}/{{ loop.revindex0 }}/{{ loop.length }};{% endfor %}",
+    "loop_unsized_length_first": "{% for i in ugen %}{{ loop.length }}:{{ loop.last }}:{{ loop.nextitem }}:{{ loop.revindex }};{% endfor %}",
+    "loop_filtered_last_then_length": "{% for i in xs if i != 2 %}{{ i }}:{{ loop.last }}:{{ loop.length }}/{{ loop.revindex }}/{{ loop.revindex0 }};{% endfor %}",
+    "loop_filtered_unsized_nextitem": "{% for i in ugen if i %}{{ loop.nextitem }}:{{ loop.revindex0 }}:{{ loop.length }};{% else %}none{% endfor %}",
+    "loop_unsized_recursive": "{% for n in (t for t in tree) recursive %}{{ loop.last }}{{ loop.length }}{{ n.v }}{% if n.c %}({{ loop(n.c) }}){% endif %}{% endfor %}" if False else
+                              "{% for n in utree recursive %}{{ loop.last }}{{ loop.length }}/{{ loop.revindex }}:{{ n.v }}{% if n.c %}({{ loop(n.c) }}){% endif %}{% endfor %}",
 }
+# templates whose data is also replaced by coroutine functions / async generators in async mode
+ASYNC_DATA_TEMPLATES = ("callable_data", "awaitable_attr", "calls", "loop_unsized_last_then_length", "loop_unsized_nextitem_then_length", "loop_unsized_length_first",
+                        "loop_filtered_unsized_nextitem", "loop_unsized_recursive")
 EXTENSIONS = ["jinja2.ext.loopcontrols", "jinja2.ext.do"]
 
 
@@ -732,6 +746,7 @@ def base_data():
         "pairs": [(1, (2, 3)), (4, (5, 6))], "parent": "base", "name": "inc", "flag": True, "xs2": [], "o": Obj(),
         "f": lambda *a, **k: "f" + "".join(map(str, a)) + "".join(f"{kk}{vv}" for kk, vv in sorted(k.items())) if a != (0,) else "",
         "g": lambda: "g", "gen": lambda: iter([7, 8]), "rows": [[1], [2]], "acc": [0],
+        "ugen": (i for i in (1, 2, 3)), "uiter": iter([4, 5, 6]), "utree": iter([{"v": 1, "c": iter([{"v": 2, "c": []}])}, {"v": 5, "c": []}]),
     }
 
 
@@ -754,7 +769,22 @@ def async_data():
         for i in (1, 2, 3):
             yield i
 
-    d.update(f=af, g=ag, gen=agen, o=AObj())
+    async def a123():
+        for i in (1, 2, 3):
+            yield i
+
+    async def a456():
+        for i in (4, 5, 6):
+            yield i
+
+    async def asub():
+        yield {"v": 2, "c": []}
+
+    async def atree():
+        yield {"v": 1, "c": asub()}
+        yield {"v": 5, "c": []}
+
+    d.update(f=af, g=ag, gen=agen, o=AObj(), ugen=a123(), uiter=a456(), utree=atree())
     return d, {"xs_async": axs}
 
 
@@ -821,7 +851,7 @@ def render_disagreements(names=None, env_classes=None):
                         if norm_out(o) != ref:
                             bad.append((f"{name}:{way}", f"template {name!r} ({cls.__name__}, {env_kw}): sync render -> {ref}, {way} -> {norm_out(o)}"))
                 # values replaced by coroutine functions / async iterables producing the same results (async environment only)
-                if name in ("callable_data", "awaitable_attr", "calls"):
+                if name in ASYNC_DATA_TEMPLATES:
                     d_async = lambda: async_data()[0]
                     ways2 = render_all_ways(name, cls, env_kw, d_async, sync_too=False)
                     n += 4
@@ -1482,8 +1512,45 @@ def entry_task(name):
     return t
 
 
+class Relabel(Task):
+    """a task of another property module reported under a C09 name (same contract, same replay)"""
+    prop = PROP
+
+    def __init__(self, inner, old_prefix, new_prefix):
+        self.inner, self.old_prefix, self.new_prefix = inner, old_prefix, new_prefix
+        self.kind = inner.kind
+        self.name = new_prefix + inner.name[len(old_prefix):] if inner.name.startswith(old_prefix) else new_prefix + inner.name
+
+    def run(self, tier, seed):
+        rs = self.inner.run(tier, seed)
+        for r in rs:
+            if r.name.startswith(self.old_prefix):
+                r.name = self.new_prefix + r.name[len(self.old_prefix):]
+        return rs
+
+    def finding_key(self, res):
+        fk = getattr(self.inner, "finding_key", None)
+        return fk(res) if fk else None
+
+    def replay(self, w):
+        return self.inner.replay(w)
+
+
+def loopcontext_tasks():
+    """sync / async LoopContext parity: contracts.c07 proves every method of LoopContext AND of AsyncLoopContext against the SAME abstract
+    loop (ghost items, position, look-ahead); the async side (__anext__, length, revindex, revindex0, auto_aiter and its wrapper) and its sync
+    counterparts are imported here so that C09 decides on its own that `loop.*` reports the same values in both modes."""
+    try:
+        from contracts import c07
+    except Exception as ex:  # noqa
+        return [FnTask(PROP, "C09.loopcontext.import", lambda t, tier, seed: [Res("C09.loopcontext.import", "unknown", "pyvc", 0, f"contracts.c07 not importable: {ex}", "vc")], "vc")]
+    want = {"C07.async.anext", "C07.async.length", "C07.async.revindex", "C07.async_utils", "C07.next", "C07.length", "C07.revindex", "C07.last", "C07.nextitem", "C07.peek"}
+    return [Relabel(t, "C07.", "C09.loopcontext.") for t in c07.TASKS if t.name in want]
+
+
 TASKS = (
     erase_tasks()
+    + loopcontext_tasks()
     + [SourceErase()]
     + variant_tasks()
     + [VariantBounded(n) for n in VARIANT_NAMES]
